@@ -58,12 +58,26 @@ def control_conditions(fn, node):
     return walk(fn.body, out)
 
 
+AUTOMATION_VALUES = {
+    'ANTE_POSTING': 'Ante posting', 'BET_COLLECTION': 'Bet collection', 'BLIND_OR_STRADDLE_POSTING': 'Blind or straddle posting',
+    'CARD_BURNING': 'Card burning', 'HOLE_DEALING': 'Hole dealing', 'BOARD_DEALING': 'Board dealing',
+    'RUNOUT_COUNT_SELECTION': 'Runout-count selection', 'HOLE_CARDS_SHOWING_OR_MUCKING': 'Hole cards showing or mucking',
+    'HAND_KILLING': 'Hand killing', 'CHIPS_PUSHING': 'Chips pushing', 'CHIPS_PULLING': 'Chips pulling',
+}       # docs/simulation.rst, table of automations
+
+
 def run(chk, ctx) -> None:
     ms = ctx.state.methods
     disc = discovered(ctx)
     sev = SEval(ctx.prog)
     members = list(sev.enum_members('Automation'))
     chk.analysed['automation_members'] = members
+    # the published names of the automations (a caller may name them by value: Automation('Hole dealing'), a settings file)
+    got = {k: getattr(v, 'value', None) for k, v in sev.enum_members('Automation').items()}
+    for k in sorted(set(AUTOMATION_VALUES) | set(got)):
+        chk.ob('C09.members', f'Automation.{k}', got.get(k) == AUTOMATION_VALUES.get(k), ctx.prog.cls('Automation').loc,
+               'the automation and its published value', got=got.get(k), want=AUTOMATION_VALUES.get(k))
+    chk.floor('C09.members', 11)
     # ---------------------------------------------------------------- confined
     reads = []
     for name, fi in ms.items():
